@@ -224,6 +224,16 @@ func c05MakeShares(rng *zv.Rand, k, pad int) ([][]byte, []libshare.Namespace) {
 			nss = append(nss, ns)
 		}
 	}
+	// real squares also carry reserved namespaces in front of the blob namespaces: pay-for-blob transactions and the
+	// primary reserved padding that separates them from the blobs
+	if filledN >= 3 && rng.Chance(50) {
+		for _, ns := range []libshare.Namespace{libshare.PayForBlobNamespace, libshare.PrimaryReservedPaddingNamespace} {
+			if len(nss) < filledN && rng.Chance(70) {
+				nss = append(nss, ns)
+			}
+		}
+		nns = len(nss)
+	}
 	sort.Slice(nss, func(i, j int) bool { return nss[i].IsLessThan(nss[j]) })
 	// run lengths
 	runs := make([]int, nns)
@@ -390,15 +400,16 @@ func (e *c05Env) coqLayer() string {
 }
 
 type c05Ctx struct {
-	r   *zv.Run
-	t   *testing.T
-	ctx context.Context
+	r    *zv.Run
+	t    *testing.T
+	ctx  context.Context
+	hist []c05Read // every read issued so far against the current (block, representation, layer), the current one last
 }
 
 func (c *c05Ctx) viol(b *c05Block, e *c05Env, rd c05Read, class, msg string) {
 	sig := class + ":" + rd.Kind + ":" + e.rep + ":" + e.layer
 	c.r.Violation(sig, fmt.Sprintf("block k=%d pad=%d empty=%v, %s via %s, read %s: %s", b.k, b.spec.Pad, b.spec.Empty, e.rep, e.layer, rd.coqPath(), msg),
-		map[string]any{"spec": b.spec, "rep": e.rep, "layer": e.layer, "read": rd})
+		map[string]any{"spec": b.spec, "rep": e.rep, "layer": e.layer, "reads": append([]c05Read{}, c.hist...)})
 }
 
 func c05SharesEq(shs []libshare.Share, raw [][]byte) bool {
@@ -753,9 +764,16 @@ func (b *c05Block) reads(rng *zv.Rand, exhaustive bool, budget int, plain bool) 
 		}
 		return xs
 	}
-	for _, i := range idxs(size, true) {
-		for _, j := range idxs(size, true) {
+	oob := []int{-1, size, size + 1, 2 * size, -size, 1 << 20}
+	for _, i := range idxs(size, false) {
+		for _, j := range idxs(size, false) {
 			out = append(out, c05Read{Kind: "sample", I: i, J: j})
+		}
+	}
+	if !plain {
+		for n, o := range oob { // out of bounds on either side, and on both
+			v := rng.Intn(size)
+			out = append(out, c05Read{Kind: "sample", I: o, J: v}, c05Read{Kind: "sample", I: v, J: o}, c05Read{Kind: "sample", I: o, J: oob[(n+1)%len(oob)]})
 		}
 	}
 	for _, i := range idxs(size, true) {
@@ -765,10 +783,11 @@ func (b *c05Block) reads(rng *zv.Rand, exhaustive bool, budget int, plain bool) 
 		if plain && ns.ValidateForData() != nil {
 			continue
 		}
-		for _, i := range idxs(size, true) {
+		for _, i := range idxs(size, false) {
 			out = append(out, c05Read{Kind: "rownd", I: i, Ns: ns.Bytes()})
 		}
 		if !plain {
+			out = append(out, c05Read{Kind: "rownd", I: oob[rng.Intn(len(oob))], Ns: ns.Bytes()}, c05Read{Kind: "rownd", I: size, Ns: ns.Bytes()})
 			out = append(out, c05Read{Kind: "nd", Ns: ns.Bytes()})
 		}
 	}
@@ -814,6 +833,7 @@ func (b *c05Block) reads(rng *zv.Rand, exhaustive bool, budget int, plain bool) 
 
 // history runs the reads in chunks; every chunk is one history on one accessor instance (opened by open) = one case.
 func (c *c05Ctx) history(g *zv.Group, b *c05Block, rep, layer string, reads []c05Read, chunk int, open func() (*c05Env, func())) {
+	c.hist = nil
 	for lo := 0; lo < len(reads); lo += chunk {
 		hi := lo + chunk
 		if hi > len(reads) {
@@ -832,6 +852,7 @@ func (c *c05Ctx) history(g *zv.Group, b *c05Block, rep, layer string, reads []c0
 			if e.get != nil && (rd.Kind == "rownd" || rd.Kind == "reader" || rd.Kind == "roots" || rd.Kind == "hash" || rd.Kind == "size" || (rd.Kind == "half" && rd.Col)) {
 				continue // not part of the Getter API
 			}
+			c.hist = append(c.hist, rd)
 			o := c.do(b, e, rd)
 			items = append(items, "("+rd.coqPath()+", "+o+")")
 			c.r.Count("read", rd.Kind)
@@ -914,7 +935,6 @@ func TestVerifC05(t *testing.T) {
 		Spec  c05Spec   `json:"spec"`
 		Rep   string    `json:"rep"`
 		Layer string    `json:"layer"`
-		Read  *c05Read  `json:"read"`
 		Reads []c05Read `json:"reads"`
 	}
 	specs := c05Specs(r)
@@ -983,9 +1003,6 @@ func TestVerifC05(t *testing.T) {
 		r.Count("padding", fmt.Sprintf("k%d:%s", b.k, map[bool]string{true: "none", false: "some"}[b.spec.Pad == 0 && !b.spec.Empty]))
 		rds := func(plain bool) []c05Read {
 			if isReplay {
-				if replay.Read != nil {
-					return []c05Read{*replay.Read}
-				}
 				return replay.Reads
 			}
 			return b.reads(rng, exhaustive, budget, plain)
